@@ -517,6 +517,12 @@ class SolverWrapper:
         # Apply any queued bound updates right before solving
         self._apply_pending_bound_updates()
 
+        if self.external_solver == "highs":
+            # HiGHS keeps one process-wide task scheduler whose number of threads is fixed by the first solve in the
+            # process; a later model asking for a different number of threads refuses to run (status kNotset).
+            # Resetting the scheduler makes this model's own `threads` option apply, whatever was solved before.
+            highspy.Highs.resetGlobalScheduler(True)
+
         if self.time_limit == float('inf') or (not self.use_also_custom_timeout):
             self.solver.optimize()
         else:
